@@ -1,5 +1,6 @@
 import Pko.Lemmas.C10Drift
 import Pko.Lemmas.C10Adopt
+import Pko.Lemmas.C10Tear
 /-!
 # C10 — reconciliation converges from any crash, fault or drift (partial)
 
@@ -23,6 +24,10 @@ What is proved here, for EVERY store, owner, strategy, phase and object list (no
   third-party edits and deletions.  Restart-safety needs no separate statement: the pass is a
   function of the store only.
 * `repair_after_disturbances` — the chain: disturbances, then one pass ⇒ settled; then fixpoint.
+* `handover_pass_repairs` — the same across a handover: objects still controlled by a declared
+  previous revision are adopted and settled by one pass of the new revision (native strategy).
+* `teardown_pass_releases` / `teardown_converges` — a teardown pass releases every object it may
+  touch, from every store; the next pass reports done.
 
 What is NOT proved (`…_partial`): convergence of whole deployments — several revisions handing
 objects over, delegated phases with their second controller, archival and teardown, status
@@ -151,6 +156,32 @@ theorem handover_pass_repairs (cfg : Cfg) (ow : Owner) (prev : List Prev) (cls :
     simp only [w1, reconcilePhase, hok.preflight]
     exact go_handover cfg ow prev hnat ps w [] hq hok.reaches hok.distinct hm
   exact ⟨h.1, h.2.1, h.2.2.2, (settled_pass_is_fixpoint cfg ow prev cls ps w1 h.2.2.1 hok h.2.1).1⟩
+
+/-- **A teardown pass releases the phase** — from every store (hence from every crash point of an
+earlier teardown or rollout): it does not fail, afterwards the owner controls none of the
+phase's objects (deleted, or — co-owned — only de-referenced), and no key outside the phase is
+touched.  `NoForeignFinalizer` is the environment-fairness hypothesis: an object held by somebody
+else's finalizer stays in deletion until that party acts. -/
+theorem teardown_pass_releases (cfg : Cfg) (ow : Owner) (ps : List PObj) (w : World)
+    (hq : Quiet w) (hok : TearOk cfg ow ps) (hnf : ∀ p ∈ ps, NoForeignFinalizer cfg ow p w.store) :
+    (teardownPhase cfg ow ps w).2 ≠ .err ∧
+    (∀ p ∈ ps, Released cfg ow p (teardownPhase cfg ow ps w).1.store) ∧
+    ∀ k', k' ∉ ps.map (keyOf cfg ow) → (teardownPhase cfg ow ps w).1.store.get k' = w.store.get k' := by
+  obtain ⟨h1, h2, _, h4⟩ := tear_go_releases cfg ow ps w true hq hok hnf
+  exact ⟨h1, h2, h4⟩
+
+/-- **Teardown converges in two passes**: the pass after the releasing one reports done (which is
+what lets the controller drop its finalizer / report Archived), with everything still released. -/
+theorem teardown_converges (cfg : Cfg) (ow : Owner) (ps : List PObj) (w : World)
+    (hq : Quiet w) (hok : TearOk cfg ow ps) (hnf : ∀ p ∈ ps, NoForeignFinalizer cfg ow p w.store) :
+    let w1 := (teardownPhase cfg ow ps w).1
+    (teardownPhase cfg ow ps w1).2 = .done ∧
+    ∀ p ∈ ps, Released cfg ow p (teardownPhase cfg ow ps w1).1.store := by
+  intro w1
+  obtain ⟨_, h2, h3, _⟩ := tear_go_releases cfg ow ps w true hq hok hnf
+  obtain ⟨d1, d2, _⟩ := tear_go_done cfg ow ps w1 h3
+    (fun p hp => by rw [hok.1 p hp]; simp) hok.2 h2
+  exact ⟨d1, d2⟩
 
 /-! ### the crash-point ghost state -/
 
